@@ -7,6 +7,7 @@ import (
 	"context"
 	"reflect"
 
+	v1 "k8s.io/api/core/v1"
 	"sigs.k8s.io/controller-runtime/pkg/client"
 
 	"github.com/NVIDIA/KAI-scheduler/pkg/apis/scheduling/v2alpha2"
@@ -44,6 +45,9 @@ func getStatusWithMetadata(
 	updatedStatus.ResourcesStatus.Allocated = metaData.Allocated
 	if !metaData.Preemptible {
 		updatedStatus.ResourcesStatus.AllocatedNonPreemptible = metaData.Allocated
+	} else if len(updatedStatus.ResourcesStatus.AllocatedNonPreemptible) > 0 {
+		// the workload was non-preemptible before: do not keep the value reported then
+		updatedStatus.ResourcesStatus.AllocatedNonPreemptible = v1.ResourceList{}
 	}
 
 	return updatedStatus
